@@ -152,13 +152,13 @@ type BoxDecoderSR func(hdr BoxHeader, startPos uint64, sw bits.SliceReader) (Box
 
 // DecodeBoxSR - decode a box from SliceReader
 func DecodeBoxSR(startPos uint64, sr bits.SliceReader) (Box, error) {
-	b, _, err := decodeBoxSRAndExtraHdr(startPos, sr)
+	b, _, err := decodeBoxSRAndInputSize(startPos, sr)
 	return b, err
 }
 
-// decodeBoxSRAndExtraHdr decodes a box and also returns the number of header bytes in the input that are
-// not part of Size(): 8 for a non-mdat box with a 64-bit size field (see useCompactSize), otherwise 0.
-func decodeBoxSRAndExtraHdr(startPos uint64, sr bits.SliceReader) (Box, uint64, error) {
+// decodeBoxSRAndInputSize decodes a box and also returns the number of bytes it occupies in the input. That is
+// more than Size() when the box, or a box inside it, has a 64-bit size field that is not kept (see useCompactSize).
+func decodeBoxSRAndInputSize(startPos uint64, sr bits.SliceReader) (Box, uint64, error) {
 	var err error
 	var b Box
 
@@ -175,9 +175,8 @@ func decodeBoxSRAndExtraHdr(startPos uint64, sr bits.SliceReader) (Box, uint64, 
 	if h.Size > maxSize && h.Name != "mdat" {
 		return nil, 0, fmt.Errorf("decode box %q, size %d too big (max %d)", h.Name, h.Size, maxSize)
 	}
-	extraHdr := uint64(h.Hdrlen)
+	inputSize := h.Size
 	h.useCompactSize()
-	extraHdr -= uint64(h.Hdrlen)
 
 	d, ok := decodersSR[h.Name]
 	payloadStart := sr.GetPos()
@@ -203,7 +202,7 @@ func decodeBoxSRAndExtraHdr(startPos uint64, sr bits.SliceReader) (Box, uint64, 
 		}
 	}
 
-	return b, extraHdr, nil
+	return b, inputSize, nil
 }
 
 // DecodeHeaderSR - decode a box header (size + box type + possible largeSize) from sr
@@ -247,12 +246,12 @@ LoopBoxes:
 			break LoopBoxes
 		}
 
-		var extraHdr uint64 // Header bytes in the input that are not part of box.Size()
-		box, extraHdr, err = decodeBoxSRAndExtraHdr(boxStartPos, sr)
+		var inputSize uint64 // Number of bytes the box occupies in the input
+		box, inputSize, err = decodeBoxSRAndInputSize(boxStartPos, sr)
 		if err != nil {
 			return nil, err
 		}
-		boxType, boxSize := box.Type(), box.Size()
+		boxType := box.Type()
 		switch boxType {
 		case "mdat":
 			if f.isFragmented {
@@ -298,7 +297,7 @@ LoopBoxes:
 		}
 		f.AddChild(box, boxStartPos)
 		lastBoxType = boxType
-		boxStartPos += boxSize + extraHdr
+		boxStartPos += inputSize
 	}
 	return f, nil
 }
